@@ -1,11 +1,11 @@
 SPECIFICATION GSpec
 CONSTANTS
-  MaxScript = 4
+  MaxScript = 3
   MaxSpurious = 1
   FORWARD_WAKER = TRUE
   READY_DRAINS = TRUE
   FILTER_MODE = "none"
-  CHAIN_MODE = "none"
+  CHAIN_MODE = "chain"
   MODE = "sched"
   MaxTok = 0
   MaxPairTok = 0
